@@ -40,6 +40,8 @@ func profile(name string, cfgs []vtx.Config) *vtx.Profile {
 					}
 					if c == "c1" {
 						e = append(e, prof.E("perm", c, 0, "A")) // request without allocation
+						// an Allocate that asks for LIFETIME 0 is refused: whatever was set up for it is released again
+						e = append(e, vtx.Event{K: "alloc", C: c, L: 0})
 					}
 
 					continue
